@@ -80,8 +80,8 @@ HARNESSES = [
              "bounds in [-2000,2000]; every one of the %d operations x all its argument shapes, once" % len(OPS)),
     H("c01_k2_sub", c01_k2_sub, tiers=("quick",), quick=dict(max_paths=60000, time_budget=90), witness_every=50,
       bounds="all pairs from the sub-alphabet %s + enter/exit; R1 with symbolic bounds (concrete coefficients)" % SUB),
-    H("c01_k2_full", c01_k2_full, tiers=("thorough",), thorough=dict(max_paths=2000000, time_budget=900), witness_every=200,
+    H("c01_k2_full", c01_k2_full, tiers=("thorough",), thorough=dict(max_paths=2000000, time_budget=450), witness_every=200,
       bounds="all pairs of the full alphabet + enter/exit; R1 with symbolic bounds"),
-    H("c01_k3_sub", c01_k3_sub, tiers=("thorough",), thorough=dict(max_paths=2000000, time_budget=900), witness_every=200,
+    H("c01_k3_sub", c01_k3_sub, tiers=("thorough",), thorough=dict(max_paths=2000000, time_budget=400), witness_every=200,
       bounds="all triples from the sub-alphabet + enter/exit"),
 ]
